@@ -9,7 +9,14 @@ Tie:    tuple-oracle correspondence.  Real pmapping tables come from `make_pmapp
         one-row tables); the Lean driver computes the exact front of the resulting vectors; the public `join_pmappings` on the
         same tables — all rows, random row subsets, random group subsets, every Einsum order the data dependencies permit,
         with and without RESOURCE_USAGE — must return exactly that front (20 ppm tolerance for float32 sums).
-        Objective columns of each combination are also re-added exactly from the rows.
+        Objective columns of each combination are also re-added exactly from the rows; the code's decision on every pair of
+        rows joined alone is cross-checked against an independent compatibility predicate (joinlib.indep_pair: same backing
+        memory, same loops above it modulo permutation inside blocks between reservation stops, equal tile shapes).
+Known finding (genuine, inherited from C11 `sum-key-not-strict`): with ≥ 3 varying compared columns the final make_pareto keeps a
+        dominated row on a float32 row-sum tie: key `dominated-row-returned:float32-row-sum-tie`, corpus/C13/float32-row-sum-tie.json.
+Not detectable by this tie (stated in the manifest): an error that changes the capacity verdict or the combined reservation of a
+        SINGLE combination identically in one-row and many-row joins (e.g. dropping max_right_to_left in merge_next, `<` for `<=`
+        in limit_capacity) — reservation combination is not independently modelled here.
 """
 from __future__ import annotations
 
